@@ -141,11 +141,78 @@ pub fn coherence_ascii() {
     cover!(an.0 != b, "ASCII character folded");
 }
 
+// std's Unicode property predicates are environment. Executing their table searches for a char
+// over the whole scalar range needs ~300 loop unwindings per call and exhausts memory, so for the
+// two coherence harnesses that reach them they are replaced (`-Z stubbing`) by uninterpreted
+// functions: exact on ASCII, an arbitrary but fixed answer per distinct non-ASCII argument. The
+// property must hold for ANY such answers, which includes the real ones (over-approximation); a
+// counterexample is only reported if it replays natively with the real predicates.
+#[cfg(kani)]
+pub mod uf {
+    const SLOTS: usize = 4;
+    static mut MEMO: [[(u32, bool, bool); SLOTS]; 4] = [[(0, false, false); SLOTS]; 4];
+    fn uf(which: usize, c: char) -> bool {
+        unsafe {
+            let mut i = 0;
+            while i < SLOTS {
+                if MEMO[which][i].2 && MEMO[which][i].0 == c as u32 {
+                    return MEMO[which][i].1;
+                }
+                if !MEMO[which][i].2 {
+                    let v: bool = kani::any();
+                    MEMO[which][i] = (c as u32, v, true);
+                    return v;
+                }
+                i += 1;
+            }
+        }
+        kani::assume(false);
+        false
+    }
+    pub fn is_lowercase(c: char) -> bool {
+        if (c as u32) < 128 { c >= 'a' && c <= 'z' } else { uf(0, c) }
+    }
+    pub fn is_numeric(c: char) -> bool {
+        if (c as u32) < 128 { c >= '0' && c <= '9' } else { uf(1, c) }
+    }
+    pub fn is_alphabetic(c: char) -> bool {
+        if (c as u32) < 128 { (c >= 'a' && c <= 'z') || (c >= 'A' && c <= 'Z') } else { uf(2, c) }
+    }
+    pub fn is_whitespace(c: char) -> bool {
+        if (c as u32) < 128 { c == ' ' || (c >= '\x09' && c <= '\x0d') } else { uf(3, c) }
+    }
+}
+
+macro_rules! uf_harness {
+    ($name:ident, $body:expr) => {
+        #[cfg(kani)]
+        #[kani::proof]
+        #[kani::unwind(16)]
+        #[kani::stub(char::is_lowercase, crate::verif::chars_h::uf::is_lowercase)]
+        #[kani::stub(char::is_numeric, crate::verif::chars_h::uf::is_numeric)]
+        #[kani::stub(char::is_alphabetic, crate::verif::chars_h::uf::is_alphabetic)]
+        #[kani::stub(char::is_whitespace, crate::verif::chars_h::uf::is_whitespace)]
+        fn $name() {
+            $body;
+            kani::cover!(true, "END harness end reachable");
+        }
+    };
+}
+uf_harness!(chars_coherence_norm, coherence_norm());
+uf_harness!(chars_coherence_class, coherence_class());
+
+#[cfg(not(kani))]
+pub fn lookup_uf(name: &str) -> Option<fn()> {
+    match name {
+        "chars_coherence_norm" => Some(coherence_norm as fn()),
+        "chars_coherence_class" => Some(coherence_class as fn()),
+        _ => None,
+    }
+}
+
 harnesses! {
     chars_fold_reference [16] => fold_reference();
     chars_normalize_reference [16] => normalize_reference();
-    chars_coherence_norm [16] => coherence_norm();
     chars_coherence_compose [16] => coherence_compose();
-    chars_coherence_class [16] => coherence_class();
     chars_coherence_ascii [16] => coherence_ascii();
 }
